@@ -284,6 +284,23 @@ func (c *c06Case) Run(ctx *core.Ctx) {
 		expectText("span", []string{wantN}, "inner-component")
 		expectText("em", []string{wantM}, "middle-component")
 		trig = c.Var
+	case "case": // slot names written with capital letters (attribute keys are lower-cased by the HTML parser)
+		comp := `<div class="c"><header><slot name="pageTitle">FBH</slot></header><footer><slot name="Foot">FBF</slot></footer></div>`
+		var content, wh, wf string
+		switch c.Form {
+		case "hash":
+			content, wh, wf = `<template #pageTitle>H1</template><template #Foot>F1</template>`, "H1", "F1"
+		case "vslot":
+			content, wh, wf = `<template v-slot:pageTitle>H1</template><template v-slot:Foot>F1</template>`, "H1", "F1"
+		case "lower":
+			content, wh, wf = `<template #pagetitle>H1</template><template v-slot:foot>F1</template>`, "H1", "F1"
+		case "none":
+			content, wh, wf = ``, "FBH", "FBF"
+		}
+		files = Files{"c.vuego": comp, "page.vuego": `<template include="c.vuego">` + content + `</template>`}
+		expectText("header", []string{wh}, "mixed-case-name")
+		expectText("footer", []string{wf}, "mixed-case-name")
+		trig = c.Form
 	case "layout":
 		csrc, ctext, _ := c06Content(c.Kind, "")
 		lay := `<html><body><aside><slot name="side">LFB</slot></aside><main v-html="content"></main></body></html>`
@@ -328,7 +345,7 @@ func init() {
 		ID:        "C06",
 		Level:     "exploration",
 		CPUBudget: 10,
-		Rule: "component with header/default/footer slots (fallback on two of them) used by includers supplying every subset in every form (v-slot:, #, plain children, v-slot, v-slot:default) x 4 content kinds (static, {{ }} of an includer variable, :attr, text) x 4 instance arrangements; scoped slots (4 components incl. slot in v-for) x {named var, destructured, fallback, plain}; same slot used twice; nested components (5 arrangements); layout-inherited slots; " +
+		Rule: "component with header/default/footer slots (fallback on two of them) used by includers supplying every subset in every form (v-slot:, #, plain children, v-slot, v-slot:default) x 4 content kinds (static, {{ }} of an includer variable, :attr, text) x 4 instance arrangements; scoped slots (4 components incl. slot in v-for) x {named var, destructured, fallback, plain}; same slot used twice; nested components (5 arrangements); layout-inherited slots; slot names written with capital letters; " +
 			"every case also right after a render (on another engine) that passes content for all those slot names to a component and through a layout to the components the layout includes; " +
 			"oracle: expected normalised text (and bound attributes) at every slot position. non-trivial = all",
 		Bounds:      map[string]string{"quick": "full catalogue product, nesting depth 2, <=2 instances", "thorough": "same"},
@@ -377,6 +394,9 @@ func init() {
 				emit(&c06Case{Part: "layout", Var: "supplied", Kind: k})
 			}
 			emit(&c06Case{Part: "layout", Var: "none", Kind: "static"})
+			for _, f := range []string{"hash", "vslot", "lower", "none"} {
+				emit(&c06Case{Part: "case", Form: f})
+			}
 		},
 	})
 }
